@@ -14,6 +14,7 @@ import (
 
 	"github.com/mattn/anko/ast"
 	"github.com/mattn/anko/env"
+	"github.com/mattn/anko/parser"
 	zz "github.com/mattn/anko/zzverif"
 )
 
@@ -189,11 +190,12 @@ func zzStepMakers(vary int, pos *int, classes int) *zzMakers {
 		i := *pos
 		*pos = i + 1
 		if i == vary {
-			c := zz.Choose(classes + 1)
-			if c == classes {
+			list := zzClassList(classes)
+			c := zz.Choose(len(list) + 1)
+			if c == len(list) {
 				return zzBad()
 			}
-			return zzLitRV(zzOperand(c, zz.Choose(pNum)))
+			return zzLitRV(zzOperand(list[c], zz.Choose(pNum)))
 		}
 		if i == (vary+1)%3 {
 			return zzLitRV(zzOperand(uBenign[zz.Choose(len(uBenign))], pPlain))
@@ -217,7 +219,7 @@ func zzStepMakers(vary int, pos *int, classes int) *zzMakers {
 				if i > 0 || field == "ChanStmt.OkExpr" {
 					return zzIdent("v2")
 				}
-				switch zz.Choose(6) {
+				switch zz.Choose(9) {
 				case 0:
 					return zzIdent("x")
 				case 1:
@@ -228,6 +230,14 @@ func zzStepMakers(vary int, pos *int, classes int) *zzMakers {
 					return &ast.SliceExpr{Item: zzIdent("s"), Begin: child()}
 				case 4:
 					return &ast.DerefExpr{Expr: child()}
+				case 5:
+					// the container of a member / index / slice target is itself an
+					// arbitrary value (what `a.b.x = v`, `f()[i] = v` evaluate first)
+					return &ast.MemberExpr{Expr: child(), Name: []string{"x", "A", "nosuch"}[zz.Choose(3)]}
+				case 6:
+					return &ast.ItemExpr{Item: child(), Index: child()}
+				case 7:
+					return &ast.SliceExpr{Item: child(), Begin: child()}
 				}
 				return child()
 			case "DeferStmt.Expr", "GoroutineStmt.Expr":
@@ -391,6 +401,19 @@ func zzStepKind(k int, classes int) {
 // all.  The per-kind entry points ZZ_C01_k_<Kind>[_quick] are generated.
 const zzQuickClasses = uChanClosed
 
+// zzClassList: the classes the varied child ranges over.  The quick tier adds
+// the typed containers with unusual key / nil / addressable shapes to its prefix.
+func zzClassList(classes int) []int {
+	var l []int
+	for c := 0; c < classes; c++ {
+		l = append(l, c)
+	}
+	if classes < uNumClasses {
+		l = append(l, uMapInt64Str, uMapNilTyped, uSliceNilTyped, uStructVal)
+	}
+	return l
+}
+
 var _ = reflect.ValueOf
 
 // zzDump is a structural dump of a tree (native replay oracle for C14-F1;
@@ -460,4 +483,102 @@ func zzDump(x interface{}) string {
 	}
 	walk(reflect.ValueOf(x), 0)
 	return string(sb)
+}
+
+// ZZ_C01_interference: the one thing the per-kind step cannot see, because it
+// stubs children by outcomes that do not touch the parent's operands: a child
+// that changes the very container its parent is working on (entries deleted
+// from / added to a map while a for-in visits it, the iterated variable
+// re-bound or emptied, a container shrunk by the right-hand side of an
+// assignment into it, a channel closed by the loop that drains it).  Programs
+// are source text through the real parser; map key orders are all explored.
+func ZZ_C01_interference() {
+	zz.PermuteMaps(true)
+	n := 1 + zz.Choose(3)
+	entries := []string{`"a": 1`, `"b": 2`, `"c": 3`}[:n]
+	lit := "{"
+	for i, en := range entries {
+		if i > 0 {
+			lit += ", "
+		}
+		lit += en
+	}
+	lit += "}"
+	vi := zz.Choose(2)
+	vars := []string{"k", "k, v"}[vi]
+	use := []string{"x = k", "x = v; y = [k, v]"}[vi]
+	muts := []string{
+		`delete(m, "a")`, `delete(m, "b")`, `delete(m, "a"); delete(m, "b"); delete(m, "c")`, `delete(m, k)`,
+		`m["z"] = 9`, `m = nil`, `m = {}`, `m[k] = nil`, `m = 1`, `for q in m { delete(m, q) }`,
+	}
+	var src, id string
+	switch f := zz.Choose(7); f {
+	case 0:
+		mi := zz.Choose(len(muts))
+		src = "m = " + lit + "; x = 0; for " + vars + " in m { " + muts[mi] + "; " + use + " }; x"
+		id = "for-in-map/" + muts[mi]
+	case 1:
+		mi := zz.Choose(len(muts))
+		src = "m = make(map[string]int64); m.a = 1; m.b = 2; x = 0; for " + vars + " in m { " + muts[mi] + "; " + use + " }; x"
+		id = "for-in-typed-map/" + muts[mi]
+	case 2:
+		sm := []string{`s = []`, `s = nil`, `s[0] = nil`, `s += 1`, `s = s[:0]`, `s = 1`, `s[len(s)] = 5`}
+		mi := zz.Choose(len(sm))
+		src = "s = [1, 2, 3]; x = 0; for v in s { " + sm[mi] + "; x = v }; x"
+		id = "for-in-slice/" + sm[mi]
+	case 3:
+		// the right-hand side changes the container the left-hand side indexes
+		rm := []string{`s = []`, `s = nil`, `s = 1`, `s = s[:1]`, `m = nil`, `delete(m, "a")`}
+		mi := zz.Choose(len(rm))
+		tg := []string{`s[2]`, `s[1:2]`, `m["a"]`, `m.a`, `s[3]`}
+		ti := zz.Choose(len(tg))
+		src = "s = [1, 2, 3]; m = " + lit + "; func f() { " + rm[mi] + "; return 7 }; " + tg[ti] + " = f(); [s, m]"
+		id = "assign-target-changed-by-value/" + tg[ti] + "/" + rm[mi]
+	case 4:
+		cm := []string{`close(c)`, `c = nil`, `c <- 1`, `close(c); close(c)`}
+		mi := zz.Choose(len(cm))
+		src = "c = make(chan int64, 4); c <- 1; c <- 2; x = 0; for v in c { " + cm[mi] + "; x += v; if x > 20 { break } }; x"
+		id = "for-in-chan/" + cm[mi]
+	case 5:
+		// an operand changes the other operand's container between the two evaluations
+		om := []string{`s[f()]`, `s[f():]`, `s[:f()]`, `m[g()]`, `s[0] + f()`, `[s[2], f(), s[2]]`, `s[f()] = s[2]`}
+		mi := zz.Choose(len(om))
+		src = "s = [1, 2, 3]; m = " + lit + "; func f() { s = [9]; return 2 }; func g() { m = nil; return \"a\" }; " + om[mi]
+		id = "operand-changes-container/" + om[mi]
+	case 6:
+		// switch / if / loop conditions re-bound by their own bodies
+		pm := []string{`for i = 0; i < len(s); i++ { s = s[:len(s)-1] }`, `for len(s) > 0 { s = s[1:] }`, `switch s { case s: s = nil; case nil: s = 1 }`,
+			`for i in s { for j in s { s = s[:0] } }`, `x = 0; for i in range(3) { defer func() { s = nil }() }; s[0]`}
+		mi := zz.Choose(len(pm))
+		src = "s = [1, 2, 3]; " + pm[mi] + "; s"
+		id = "condition-operand-rebound/" + pm[mi]
+	}
+	e := env.NewEnv()
+	e.Define("range", func(n int64) []int64 { return make([]int64, n) })
+	e.Define("len", func(v interface{}) int64 {
+		rv := reflect.ValueOf(v)
+		switch rv.Kind() {
+		case reflect.Slice, reflect.Map, reflect.String:
+			return int64(rv.Len())
+		}
+		return 0
+	})
+	zz.Budget(400000)
+	panicked := false
+	msg := ""
+	func() {
+		defer func() {
+			if r := recover(); r != nil {
+				if _, ok := r.(zz.AssumeFailed); ok {
+					panic(r)
+				}
+				panicked, msg = true, fmt.Sprint(r)
+			}
+		}()
+		_, err := Execute(e, &Options{Debug: false}, src)
+		if perr, isParse := err.(*parser.Error); isParse {
+			zz.Assertf(false, "C01.interference/generated-program-parses", src+": "+perr.Error())
+		}
+	}()
+	zz.Assertf(!panicked, "C01.interference.no-panic/"+id, src+": "+msg)
 }
